@@ -48,6 +48,18 @@ def check(m, ss, tree):
         d2 = m.fetch_diff(source=m.fetch(source=d))
         if d2.as_str() != d.as_str():
             return "difference of the difference-restored W is not D again", d
+        # the difference taken directly from the source list (what `phil --diff` does) is as faithful and minimal
+        try:
+            ds = m.fetch_diff(sources=ss)
+        except (RuntimeError, freephil.Sorry):
+            return None, d   # a value text the type refuses somewhere in the sources: diffing them is refused
+        for l in ds.all_definitions():
+            mo = md.get(l.path)
+            if mo is not None and not mo.multiple:
+                if mo.extract_format(source=l.object).as_str() == mo.extract_format().as_str():
+                    return "difference of the sources contains %s although it equals the master default" % l.path, ds
+        if _fetch.dump(m.fetch(source=ds).extract()) != wd:
+            return "merging the difference of the sources back does not reproduce W's extracted values", ds
     except BaseException as e:
         return "re-merge raised %s: %s" % (type(e).__name__, str(e)[:100]), d
     return None, d
@@ -87,7 +99,10 @@ def run(ctx):
             if relists_master_instance(tree, srcs):
                 cls.append("D10")
             ctx.fail(case, f, finding=cls, model_violates=None)
-        # correspondence: fetch_diff of the printed working set
+        # correspondence: fetch_diff of the raw sources, and of the printed working set
+        reqs.append(_fetch.fetch_req(mt, srcs, diff=True))
+        impls.append(_fetch.fetch_impl(m, [freephil.parse(input_string=s_) for s_ in srcs], diff=True))
+        cases.append(case)
         try:
             wtxt = m.fetch(sources=ss).as_str()
             ia = _fetch.fetch_impl(m, [freephil.parse(input_string=wtxt)], diff=True)
